@@ -11,6 +11,10 @@ pub fn run(property: &str, tier: &str) -> i32 {
             let rule = "explicit-state search: every distinct canonical state (placement, side, rights, ep target, inherited promotion descriptor, capture-mode flag) of the S1 reach graph to the per-root depth limits and of the complete S2 small-scope families; transitions = successors produced by the engine's real generate_moves and compared with the rules oracle";
             rep.finish(r.states, r.transitions, r.validated, r.exhaustive, rule)
         }
+        "C06" => crate::e5_pure::run_c06(&rep),
+        "C09" => crate::e5_pure::run_c09(&rep),
+        "C14" => crate::e5_pure::run_c14(&rep),
+        "C15" => crate::e5_pure::run_c15(&rep, None),
         _ => {
             eprintln!("no check registered for {}", property);
             2
